@@ -221,6 +221,7 @@ func runC07(c *Ctx) {
 			lossy[cl] = true
 		}
 	}
+	CheckDisclosure(c, clients, rc.AllowDisclose)
 	CheckOrderingLossy(c, clients, lossy)
 	CloseAll(c, w, false)
 }
